@@ -174,7 +174,7 @@ def mime_views(chk: Check, site: driver.Site, o: sites.Obj, ctx: str) -> None:
     chk.case(("mime", ctx.split(":")[0], next(iter(vals)), tuple(sorted(t for t in o.tags if ":" not in t))), None)
 
 
-QUERIES = [b"needle", b"two words", b"a+b", b"100%", b"%41", b"a&b=c", b"x?y#z", b"semi;colon", b"caf\xc3\xa9",
+QUERIES = [b"needle", b"two words", b"mount /umn 2", b"alpha /gm/local.txt 12", b"a+b", b"100%", b"%41", b"a&b=c", b"x?y#z", b"semi;colon", b"caf\xc3\xa9",
            b"\xff\xfe bad utf8", b"quote\"s'", b"<tag>", b"back\\slash", b"a=b", b"~tilde", b"$1", b"!", b"+", b"$x"]
 
 
